@@ -1079,7 +1079,7 @@ func runStall(c *Ctx) (err error) {
 			err = nil
 		}
 	}()
-	work, e := os.MkdirTemp(fsWorkDir(c), "stall-")
+	work, e := os.MkdirTemp(fsWorkDir(c), scratchPrefix("stall"))
 	if e != nil {
 		return e
 	}
